@@ -164,8 +164,11 @@ def draw_shape(sp, max_procs, max_ents, max_comps):
     ne = sp.choose(max_ents + 1, 'n-ents')
     used_ids = set()
     for i in range(ne):
-        idk = sp.choose(3, 'ent%d-id' % i)
-        eid = None if idk == 0 else ('hero%d' % i if idk == 1 else 100 + i)
+        idk = sp.choose(5 if i == 0 else 3, 'ent%d-id' % i)
+        # none / string / int >= 100; the first entity may also get a FALSY explicit id (0 or '')
+        eid = [None, 'hero%d' % i, 100 + i, 0, ''][idk]
+        if idk >= 3:
+            sp.cover('falsy-id')
         nc = sp.choose(max_comps + 1, 'ent%d-n' % i)
         comps = []
         if nc >= 1:
@@ -381,8 +384,8 @@ def h_strings_replay(sp, fname='', text=''):
 
 
 HARNESSES = {
-    'shape': dict(fn=h_shape, nontrivial=['processors', 'explicit-id', 'auto-id', 'callbacks'],
-                  required=['processors', 'explicit-id', 'auto-id', 'callbacks']),
+    'shape': dict(fn=h_shape, nontrivial=['processors', 'explicit-id', 'auto-id', 'callbacks', 'falsy-id'],
+                  required=['processors', 'explicit-id', 'auto-id', 'callbacks', 'falsy-id']),
     'args': dict(fn=h_args, nontrivial=['kind-obj', 'kind-res', 'kind-handle', 'kind-mid-marker', 'kind-plain', 'kind-list'],
                  required=['kind-int', 'kind-obj', 'kind-obj-nested', 'kind-res', 'kind-res1', 'kind-handle', 'kind-mid-marker',
                            'kind-plain', 'kind-list', 'kind-dict', 'kind-none', 'res-through-composite-key']),
@@ -420,7 +423,7 @@ BOUNDS = {'quick': 'shape: <=2 processors, <=2 entities, <=1 component, 3 argume
           'thorough': 'shape: <=2 processors, <=3 entities, <=2 components; args: <=2 positional + <=1 keyword; strings: unbounded, |name|<=3 and <=6'}
 ASSUMPTIONS = [
     'references nested inside lists/dicts are not resolved (only top-level positions, by design)',
-    'explicit entity ids are strings or ints >= 100 (no clash with automatic ids; that is C01)',
+    'explicit entity ids are strings, ints >= 100, or the falsy ids 0 and \'\' (no clash with automatic ids, which start at 1; clashes are C01)',
     'components of one entity have distinct exact types; processors listed have distinct exact types and default priority',
     'object_from_string is stubbed by a recording function in the CrossHair ${name} condition (importlib on a symbolic string is out of reach)',
     'marker-looking strings that do start with a marker but are malformed (unterminated, trailing text) are not asserted on',
